@@ -83,14 +83,21 @@ def configs(tier):
 
 def main(tier, seed, only=None):
     from harness import l2run
+
+    def extra(rep):
+        from harness import c01_threads
+        c01_threads.part(rep, tier)
     return l2run.run('C01', tier, seed, configs(tier), [
         'workers die only while running task code or between jobs (the '
         'property\'s own carve-out)',
         'an IOError from the task pipe is reachable only once the pipe was '
         'closed (terminate()): injected put failures are serialisation '
-        'failures'], only)
+        'failures'], only, extra)
 
 
 def replay(rp):
+    if rp.get('harness') == 'c01-threads':
+        from harness import c01_threads
+        return c01_threads.replay(rp)
     from harness import l2run
     return l2run.replay('C01', rp, configs('thorough') + configs('quick'))
